@@ -724,6 +724,9 @@ def _kh_labels(case, text, labels: Set[str]) -> None:
             labels.add('damaged')
             labels.add('dmg:' + ln['d']['t'])
 
+        if ln.get('c') in SEPARATOR_COMMENTS:
+            labels.add('separator-in-comment')
+
         if ln.get('m'):
             labels.add('marker:' + ln['m'])
 
@@ -1946,7 +1949,7 @@ FAMILIES = [
                              'port-direct', 'port-fallback',
                              'marker:cert-authority', 'marker:revoked',
                              'cidr-host-bits:would-cover-query',
-                             'object-reused',
+                             'object-reused', 'separator-in-comment',
                              'comment', 'blank'] + _DMG_KINDS}),
     Family('kh_keygen', run_kh_keygen, strategy=kh_keygen_strategy,
            budget={'quick': 320, 'thorough': 2000},
